@@ -44,7 +44,10 @@ def codes(text):
 
 
 def is_str(e):
-    return (isinstance(e, ast.Constant) and isinstance(e.value, str)) or (STR_VARS and ast.unparse(e) in STR_VARS)
+    if (isinstance(e, ast.Constant) and isinstance(e.value, str)) or (STR_VARS and ast.unparse(e) in STR_VARS):
+        return True
+    # text + anything is text
+    return isinstance(e, ast.BinOp) and isinstance(e.op, ast.Add) and (is_str(e.left) or is_str(e.right))
 
 
 def is_strconst(e):
@@ -83,6 +86,10 @@ def expr(e):
             raise Untranslatable("string formatting with %")
         if isinstance(e.op, ast.Add) and (is_str(e.left) or is_str(e.right)):
             return "(.concat %s %s)" % (expr(e.left), expr(e.right))          # text + text
+        if isinstance(e.op, ast.Mult) and is_str(e.left) and not is_str(e.right):
+            return "(.strRepeat %s %s)" % (expr(e.left), expr(e.right))       # text * n
+        if isinstance(e.op, ast.Mult) and is_str(e.right) and not is_str(e.left):
+            return "(.strRepeat %s %s)" % (expr(e.right), expr(e.left))       # n * text
         op = {ast.Add: "add", ast.Sub: "sub", ast.Mult: "mul", ast.BitAnd: "band", ast.BitOr: "bor",
               ast.RShift: "shr", ast.LShift: "shl", ast.Mod: "mod", ast.FloorDiv: "floordiv"}.get(type(e.op))
         if not op:
@@ -92,7 +99,14 @@ def expr(e):
         return "(.neg %s)" % expr(e.operand)
     if isinstance(e, ast.Compare):
         if len(e.ops) != 1:
-            raise Untranslatable("chained comparison")
+            # `a < b <= c` is `a < b and b <= c` (the operands of the fragment have no side effects)
+            terms = [e.left] + list(e.comparators)
+            pairs = [expr(ast.Compare(left=terms[i], ops=[e.ops[i]], comparators=[terms[i + 1]]))
+                     for i in range(len(e.ops))]
+            out = pairs[-1]
+            for v in reversed(pairs[:-1]):
+                out = "(.and_ %s %s)" % (v, out)
+            return out
         op, r = e.ops[0], e.comparators[0]
         if isinstance(op, ast.Is) and isinstance(r, ast.Constant) and r.value is None:
             return "(.isNone %s)" % expr(e.left)
@@ -102,6 +116,8 @@ def expr(e):
             return "(.%s %s %s)" % ("eqStr" if isinstance(op, ast.Eq) else "neStr", expr(e.left), expr(r))
         if isinstance(op, ast.In) and isinstance(r, (ast.Tuple, ast.List)) and all(is_intconst(x) for x in r.elts):
             return "(.inInts %s [%s])" % (expr(e.left), ", ".join("(%d)" % x.value for x in r.elts))
+        if isinstance(op, ast.In) and is_strconst(e.left) and e.left.value:
+            return "(.inStr %s %s)" % (expr(e.left), expr(r))                  # "." in text
         name = {ast.Lt: "lt", ast.LtE: "le", ast.Gt: "gt", ast.GtE: "ge", ast.Eq: "eq", ast.NotEq: "ne"}.get(type(op))
         if not name:
             raise Untranslatable("comparison %s" % type(op).__name__)
@@ -115,6 +131,8 @@ def expr(e):
         return out
     if isinstance(e, ast.UnaryOp) and isinstance(e.op, ast.Not):
         return "(.not_ %s)" % expr(e.operand)
+    if isinstance(e, ast.IfExp):
+        return "(.ifExp %s %s %s)" % (expr(e.test), expr(e.body), expr(e.orelse))          # a if c else b
     if isinstance(e, ast.Call) and isinstance(e.func, ast.Name) and not e.keywords:
         f, a = e.func.id, e.args
         if f == "min" and len(a) == 2:
@@ -126,6 +144,12 @@ def expr(e):
             return "(.mkSlice %s)" % " ".join(parts)
         if f == "isinstance" and len(a) == 2 and isinstance(a[1], ast.Name) and a[1].id == "int":
             return "(.isInt %s)" % expr(a[0])
+        if f == "isinstance" and len(a) == 2 and isinstance(a[1], ast.Name) and a[1].id == "slice":
+            return "(.isSlice %s)" % expr(a[0])
+        if f == "isinstance" and len(a) == 2 and isinstance(a[1], ast.Name) and a[1].id == "float":
+            return "(.isFloat %s)" % expr(a[0])
+        if f == "isinstance" and len(a) == 2 and isinstance(a[1], ast.Name) and a[1].id == "str":
+            return "(.isStrInst %s)" % expr(a[0])
         if f == "len" and len(a) == 1:
             if isinstance(a[0], ast.Constant) and isinstance(a[0].value, bytes):
                 return "(.len (.strc [%s]))" % ", ".join(str(b) for b in a[0].value)   # length of a bytes literal
@@ -143,11 +167,25 @@ def expr(e):
             and is_strconst(e.func.value) and len(e.args) == 1 and not e.keywords:
         m = re.fullmatch(r"\{0:0(\d+)b\}", e.func.value.value)
         if not m:
-            raise Untranslatable("format string %r" % e.func.value.value)
+            return format_call(e)
         return "(.fmtBin %d %s)" % (int(m.group(1)), expr(e.args[0]))
+    if isinstance(e, ast.Call) and isinstance(e.func, ast.Attribute) and e.func.attr == "format" \
+            and is_strconst(e.func.value):
+        return format_call(e)
     if isinstance(e, ast.Call) and isinstance(e.func, ast.Attribute) and e.func.attr == "startswith" \
             and len(e.args) == 1 and not e.keywords:
         return "(.startswith %s %s)" % (expr(e.func.value), expr(e.args[0]))
+    if isinstance(e, ast.Call) and isinstance(e.func, ast.Attribute) and e.func.attr == "group" \
+            and len(e.args) == 1 and not e.keywords and is_intconst(e.args[0]) and e.args[0].value >= 0:
+        return "(.group %s %d)" % (expr(e.func.value), e.args[0].value)        # match.group(n)
+    if isinstance(e, ast.Call) and isinstance(e.func, ast.Attribute) and e.func.attr == "join" \
+            and is_strconst(e.func.value) and len(e.args) == 1 and not e.keywords:
+        return "(.joinStr %s %s)" % (expr(e.func.value), expr(e.args[0]))      # ",".join(ids)
+    if isinstance(e, ast.Call) and isinstance(e.func, ast.Attribute) and e.func.attr == "rpartition" \
+            and len(e.args) == 1 and not e.keywords:
+        return "(.rpartition %s %s)" % (expr(e.func.value), expr(e.args[0]))
+    if isinstance(e, ast.List) and e.elts and all(is_strconst(x) for x in e.elts):
+        return "(.slistc [%s])" % ", ".join(codes(x.value) for x in e.elts)    # ["a", "b"]
     if isinstance(e, (ast.List, ast.Tuple)) and not e.elts:
         return ".emptyList"                                                    # [] / ()
     if isinstance(e, ast.Call) and isinstance(e.func, ast.Attribute) and e.func.attr == "get" \
@@ -175,6 +213,8 @@ def expr(e):
             return "(.rev %s)" % expr(e.value)                   # x[::-1]
         if sl.step is None and sl.lower is not None and sl.upper is not None:
             return "(.slice2 %s %s %s)" % (expr(e.value), expr(sl.lower), expr(sl.upper))   # x[a:b]
+        if sl.step is None and sl.lower is not None and sl.upper is None:
+            return "(.dropE %s %s)" % (expr(e.value), expr(sl.lower))                       # x[a:] (computed a)
         raise Untranslatable("slice subscript")
     if isinstance(e, ast.Subscript) and isinstance(e.value, ast.Dict):
         d = e.value
@@ -193,6 +233,51 @@ def expr(e):
     if isinstance(e, ast.Subscript) and isinstance(e.value, ast.Name) and isinstance(e.slice, (ast.Name, ast.Call)):
         return "(.subscr %s %s)" % (expr(e.value), expr(e.slice))              # d[key]
     raise Untranslatable(ast.dump(e)[:80])
+
+
+def format_call(e):
+    """`"…{name}…{0}…".format(a, name=b)` as the concatenation of its literal pieces and its (text or int) arguments;
+    only plain fields `{name}` / `{N}` and the escapes `{{` `}}`"""
+    fmt = e.func.value.value
+    kw = dict((k.arg, k.value) for k in e.keywords)
+    if None in kw:
+        raise Untranslatable("format(**…)")
+    pieces, lit, i, used = [], "", 0, set()
+    while i < len(fmt):
+        c = fmt[i]
+        if fmt.startswith("{{", i) or fmt.startswith("}}", i):
+            lit += c
+            i += 2
+        elif c == "{":
+            j = fmt.find("}", i)
+            field = fmt[i + 1:j] if j > 0 else None
+            if field is None or not re.fullmatch(r"[A-Za-z_]\w*|\d+", field):
+                raise Untranslatable("format field in %r" % fmt)
+            if field.isdigit():
+                if int(field) >= len(e.args):
+                    raise Untranslatable("format field {%s} without argument" % field)
+                arg = e.args[int(field)]
+            else:
+                if field not in kw:
+                    raise Untranslatable("format field {%s} without argument" % field)
+                arg = kw[field]
+            used.add(field)
+            if lit:
+                pieces.append("(.strc %s)" % codes(lit))
+                lit = ""
+            pieces.append("(.fmtArg %s)" % expr(arg))
+            i = j + 1
+        elif c == "}":
+            raise Untranslatable("single } in format string %r" % fmt)
+        else:
+            lit += c
+            i += 1
+    if lit or not pieces:
+        pieces.append("(.strc %s)" % codes(lit))
+    out = pieces[-1]
+    for q in reversed(pieces[:-1]):
+        out = "(.concat %s %s)" % (q, out)
+    return out
 
 
 def stmts(body, sink, tail=False):
@@ -254,7 +339,16 @@ def inline_call(s):
     import copy
     if not INLINE or not isinstance(s, (ast.Expr, ast.Assign, ast.AugAssign, ast.Return)):
         return None, s
-    calls = [n for n in ast.walk(s) if isinstance(n, ast.Call) and isinstance(n.func, ast.Name) and n.func.id in INLINE]
+    def walk_visible(n):
+        # (an abstracted sub-expression is an input of the block: calls inside it are not inlined)
+        if ABSTRACT and isinstance(n, ast.expr) and ast.unparse(n) in ABSTRACT:
+            return
+        yield n
+        for c in ast.iter_child_nodes(n):
+            for x in walk_visible(c):
+                yield x
+
+    calls = [n for n in walk_visible(s) if isinstance(n, ast.Call) and isinstance(n.func, ast.Name) and n.func.id in INLINE]
     if not calls:
         return None, s
     if len(calls) != 1:
@@ -321,6 +415,23 @@ def stmt1(s, sink, tail=False):
     if isinstance(s, ast.AugAssign) and isinstance(s.target, ast.Name) and isinstance(s.op, ast.Add) \
             and isinstance(s.value, ast.Tuple) and len(s.value.elts) == 1:
         return "(.append %s %s)" % (lstr(s.target.id), expr(s.value.elts[0]))          # t += (e,)
+    if isinstance(s, ast.Assign) and len(s.targets) == 1 and isinstance(s.targets[0], ast.Tuple) \
+            and len(s.targets[0].elts) == 3 and all(isinstance(t, ast.Name) for t in s.targets[0].elts):
+        a, b, c = [t.id for t in s.targets[0].elts]
+        return "(.unpack3 %s %s %s %s)" % (lstr(a), lstr(b), lstr(c), expr(s.value))       # a, b, c = e
+    if isinstance(s, ast.Assign) and len(s.targets) == 1 and isinstance(s.targets[0], ast.Subscript) \
+            and isinstance(s.targets[0].value, ast.Name) and is_intconst(s.targets[0].slice) \
+            and s.targets[0].slice.value >= 0:
+        return "(.setIdx %s %d %s)" % (lstr(s.targets[0].value.id), s.targets[0].slice.value, expr(s.value))   # x[n] = e
+    if isinstance(s, ast.For) and isinstance(s.target, ast.Tuple) and len(s.target.elts) == 2 and not s.orelse \
+            and all(isinstance(t, ast.Name) for t in s.target.elts) and isinstance(s.iter, ast.Call) \
+            and isinstance(s.iter.func, ast.Name) and s.iter.func.id == "zip" and len(s.iter.args) == 2 \
+            and not s.iter.keywords:
+        if any(isinstance(n, (ast.Break, ast.Return)) for x in s.body for n in ast.walk(x)):
+            raise Untranslatable("break / return inside a for loop")
+        return "(.forZip %s %s %s %s %s)" % (lstr(s.target.elts[0].id), lstr(s.target.elts[1].id),
+                                             expr(s.iter.args[0]), expr(s.iter.args[1]),
+                                             stmts(s.body, None, False))                    # for x, y in zip(a, b)
     if isinstance(s, ast.For) and isinstance(s.target, ast.Name) and not s.orelse:
         if any(isinstance(n, (ast.Break, ast.Return)) for x in s.body for n in ast.walk(x)):
             raise Untranslatable("break / return inside a for loop")
@@ -351,6 +462,11 @@ def stmt1(s, sink, tail=False):
             and s.value.func.attr == "append" and isinstance(s.value.func.value, ast.Name) \
             and len(s.value.args) == 1 and not s.value.keywords:
         return "(.append %s %s)" % (lstr(s.value.func.value.id), expr(s.value.args[0]))     # x.append(e)
+    if isinstance(s, ast.Expr) and isinstance(s.value, ast.Call) and isinstance(s.value.func, ast.Attribute) \
+            and s.value.func.attr == "sort" and isinstance(s.value.func.value, ast.Name) and not s.value.args \
+            and len(s.value.keywords) == 1 and s.value.keywords[0].arg == "key" \
+            and isinstance(s.value.keywords[0].value, ast.Attribute) and s.value.keywords[0].value.attr == "index":
+        return "(.sortByIndex %s %s)" % (lstr(s.value.func.value.id), expr(s.value.keywords[0].value.value))
     if isinstance(s, ast.Break):
         if not tail:
             raise Untranslatable("break that is not the last thing the loop body does")
@@ -732,7 +848,30 @@ def generate_ssf(repo):
         with abstracting({}, str_vars={"response"}, return_tags=True):
             return stmts([fn.body[at[0] + 1]], None, tail=True)
 
+    FMATCH, RSEARCH = "FUNCTION.match(selection)", "RELOP.search(match.group(1))"
+
+    def is_call_body():
+        fn = find_function(ssf, "is_call")
+        with abstracting({FMATCH: "@function_match", RSEARCH: "@relop_search"}):
+            return stmts(body_of(fn), None, tail=True)
+
+    def is_call_arg():
+        fn = find_function(ssf, "is_call")
+        body = body_of(fn)
+        if len(body) != 2 or ast.unparse(body[0]) != "match = " + FMATCH:
+            raise Untranslatable("expected `match = %s` first" % FMATCH)
+        calls = [n for n in ast.walk(body[1]) if isinstance(n, ast.Call) and ast.unparse(n.func) == "RELOP.search"]
+        if len(calls) != 1 or len(calls[0].args) != 1 or calls[0].keywords:
+            raise Untranslatable("expected exactly one call RELOP.search(<one argument>)")
+        with abstracting({FMATCH: "@function_match"}):
+            return "(.seq %s (.assign %s %s))" % (stmts(body[:1], None), lstr("@arg"), expr(calls[0].args[0]))
+
     parts = [HEADER,
+             block("src_is_call", "wsgi/ssf.py is_call: the whole body; the two regexp calls are inputs: `@function_match` for "
+                   "`FUNCTION.match(selection)` (None or a match object, given by its groups) and `@relop_search` for "
+                   "`RELOP.search(match.group(1))` (None or a match object); `return e` is `@ret = e`", is_call_body),
+             block("src_is_call_relop_arg", "wsgi/ssf.py is_call: `match = FUNCTION.match(selection)` followed by the "
+                   "argument the source passes to `RELOP.search` (`@arg = match.group(1)`)", is_call_arg),
              block("src_ssf_pass_test", "wsgi/ssf.py ServerSideFunctions.handle: the statement after the first "
                    "`path, response = req.path.rsplit(\".\", 1)` (DAS requests and requests without calls are passed "
                    "through); `called` and `response` are inputs, `return e` is `@ret = \"<source text of e>\"`",
@@ -741,7 +880,148 @@ def generate_ssf(repo):
     return "\n".join(parts)
 
 
-GENERATORS = [("SsfSrc.lean", generate_ssf), ("DmrSrc.lean", generate_dmr), ("LibSrc.lean", generate_lib), ("SliceSrc.lean", generate), ("DapSrc.lean", generate_dap), ("DodsSrc.lean", generate_dods),
+def body_of(fn):
+    return [x for x in fn.body if not (isinstance(x, ast.Expr) and is_strconst(x.value))]
+
+
+def generate_proj(repo):
+    """handlers/dap.py `SequenceProxy._projection` and `SequenceProxy.id` (C04's `SeqClient.projText` / `proxyId`)"""
+    dap = parse_src(repo, "handlers", "dap.py")
+    table = {"self.sub_children": "self.sub_children",
+             "list(self.template.children())": "@children",
+             "[child.id for child in self.template.children()]": "@child_ids",
+             "(child.id for child in self.template.children())": "@child_ids",
+             "self.template.id": "self.template.id",
+             "hyperslab(self.slice)": "@hyperslab",
+             "isinstance(self.template, SequenceType)": "@template_is_sequence",
+             "self.id": "self.id"}
+    strs = {"seq", "name", "hyperslab(self.slice)", "self.id", "self.template.id"}
+
+    def projection():
+        fn = find_method(dap, "SequenceProxy", "_projection")
+        with abstracting(table, str_vars=strs):
+            return stmts(body_of(fn), None, tail=True)
+
+    def ident():
+        fn = find_method(dap, "SequenceProxy", "id")
+        with abstracting(table, str_vars=strs):
+            return stmts(body_of(fn), None, tail=True)
+
+    parts = [HEADER,
+             block("src_seq_projection", "handlers/dap.py SequenceProxy._projection: the whole body; inputs: `self.sub_children`, "
+                   "`@children` for `list(self.template.children())`, `@child_ids` for the comprehension "
+                   "`[child.id for child in self.template.children()]`, `self.template.id`, `@hyperslab` for "
+                   "`hyperslab(self.slice)`, `@template_is_sequence` for `isinstance(self.template, SequenceType)`, `self.id`; "
+                   "`return e` is `@ret = e`", projection),
+             block("src_seq_id", "handlers/dap.py SequenceProxy.id: the whole body; `@child_ids` stands for the generator "
+                   "`(child.id for child in self.template.children())`", ident),
+             "end Pydap.Gen\n"]
+    return "\n".join(parts)
+
+
+def generate_das(repo):
+    """responses/das.py `type_convert` / `get_type` (C08's `Das.typeConvert` / `Das.listType`)"""
+    das = parse_src(repo, "responses", "das.py")
+
+    def convert():
+        return stmts(body_of(find_function(das, "type_convert")), None, tail=True)
+
+    def get_type():
+        table = {"hasattr(values, 'dtype')": "@has_dtype",
+                 "NUMPY_TO_DAP2_TYPEMAP[values.dtype.char]": "@numpy_type",
+                 "isinstance(values, Iterable)": "@is_iterable",
+                 "[type_convert(val) for val in values]": "@types"}
+        with abstracting(table):
+            with inlining([find_function(das, "type_convert")]):
+                return stmts(body_of(find_function(das, "get_type")), None, tail=True)
+
+    parts = [HEADER,
+             block("src_type_convert", "responses/das.py type_convert: the whole body (`return e` is `@ret = e`)", convert),
+             block("src_get_type", "responses/das.py get_type: the whole body; inputs: `@has_dtype` for `hasattr(values, \"dtype\")`, "
+                   "`@numpy_type` for `NUMPY_TO_DAP2_TYPEMAP[values.dtype.char]`, `@is_iterable` for `isinstance(values, Iterable)`, "
+                   "`@types` for the comprehension `[type_convert(val) for val in values]`; the call `type_convert(values)` is "
+                   "inlined; `types.sort(key=precedence.index)` is `sortByIndex`", get_type),
+             "end Pydap.Gen\n"]
+    return "\n".join(parts)
+
+
+def generate_dds(repo):
+    """responses/dds.py: the text of every line the DDS printer yields (C07's `Dds.printT` / `printBase` / `shapeText`)"""
+    dds = parse_src(repo, "responses", "dds.py")
+    table = {"var.name": "var.name", "NUMPY_TO_DAP2_TYPEMAP[var.dtype.char]": "@type", "var.dims": "var.dims",
+             "var.shape": "var.shape", "isinstance(var.data, DummyData)": "@nodata",
+             "''.join(map('[{0[0]} = {0[1]}]'.format, zip(var.dims, shape)))": "@dims_text",
+             "''.join(('[{0}]'.format(len) for len in shape))": "@anon_text"}
+    strs = {"INDENT", "var.name"}
+
+    def indent():
+        found = [n for n in dds.body if isinstance(n, ast.Assign) and len(n.targets) == 1
+                 and isinstance(n.targets[0], ast.Name) and n.targets[0].id == "INDENT"]
+        if len(found) != 1:
+            raise Untranslatable("expected exactly one module-level `INDENT = …`")
+        return stmts(found, None)
+
+    def lines(name):
+        def go():
+            fn = find_function(dds, name)
+            ys = [x for x in body_of(fn) if isinstance(x, ast.Expr) and isinstance(x.value, ast.Yield)]
+            inner = [n for x in body_of(fn) if not (isinstance(x, ast.Expr) and isinstance(x.value, ast.Yield))
+                     for n in ast.walk(x) if isinstance(n, ast.Yield) and not isinstance(n.value, ast.Name)]
+            if not ys or inner:
+                raise Untranslatable("expected the lines of %s as top-level `yield <text>` statements" % name)
+            with abstracting(table, str_vars=strs):
+                parts = ["(.assign %s %s)" % (lstr("@line%d" % i), expr(y.value.value)) for i, y in enumerate(ys)]
+            out = parts[-1]
+            for q in reversed(parts[:-1]):
+                out = "(.seq %s %s)" % (q, out)
+            return out
+        return go
+
+    def base_shape():
+        fn = find_function(dds, "_basetype")
+        body = [x for x in body_of(fn) if not (isinstance(x, ast.Expr) and isinstance(x.value, ast.Yield))]
+        if len(body) != len(body_of(fn)) - 1:
+            raise Untranslatable("expected exactly one yield in _basetype")
+        with abstracting(table, str_vars=strs):
+            return stmts(body, None)
+
+    parts = [HEADER,
+             block("src_dds_indent", "responses/dds.py: the module constant `INDENT = …`", indent),
+             block("src_dds_dataset_lines", "responses/dds.py dds(DatasetType): the texts of its top-level `yield`s, in order "
+                   "(`@line0`, `@line1`); inputs `level`, `INDENT`, `var.name`", lines("_")),
+             block("src_dds_sequence_lines", "responses/dds.py _sequencetype: the texts of its top-level `yield`s",
+                   lines("_sequencetype")),
+             block("src_dds_structure_lines", "responses/dds.py _structuretype: the texts of its top-level `yield`s",
+                   lines("_structuretype")),
+             block("src_dds_grid_lines", "responses/dds.py _gridtype: the texts of its top-level `yield`s "
+                   "(`Grid {`, `Array:`, `Maps:`, `} name;`)", lines("_gridtype")),
+             block("src_dds_base_line", "responses/dds.py _basetype: the text of its `yield`; inputs `level`, `INDENT`, "
+                   "`@type` for `NUMPY_TO_DAP2_TYPEMAP[var.dtype.char]`, `var.name`, `shape` (the text computed before)",
+                   lines("_basetype")),
+             block("src_dds_base_shape", "responses/dds.py _basetype: everything before the `yield` (the record axes dropped, "
+                   "the three forms of the shape text); inputs `var.shape`, `@nodata` for `isinstance(var.data, DummyData)`, "
+                   "`sequence`, `var.dims`, `var.name`, `@dims_text` / `@anon_text` for the two joins over generators",
+                   base_shape),
+             "end Pydap.Gen\n"]
+    return "\n".join(parts)
+
+
+def generate_hlib(repo):
+    """handlers/lib.py `check_hyperslab` (C15/C02's `Handler.validSl` / the guard of `Handler.sliceBase`)"""
+    hlib = parse_src(repo, "handlers", "lib.py")
+
+    def check():
+        return stmts(body_of(find_function(hlib, "check_hyperslab")), None, tail=True)
+
+    parts = [HEADER,
+             block("src_check_hyperslab", "handlers/lib.py check_hyperslab: the whole body; `slice_` (a tuple of ints and "
+                   "slice objects) and `shape` (a tuple of ints) are the inputs; the loop is a MiniPy `forZip`; the "
+                   "message of the exception is not carried", check),
+             "end Pydap.Gen\n"]
+    return "\n".join(parts)
+
+
+GENERATORS = [("DdsSrc.lean", generate_dds), ("DasSrc.lean", generate_das), ("HlibSrc.lean", generate_hlib), ("ProjSrc.lean", generate_proj), ("SsfSrc.lean", generate_ssf), ("DmrSrc.lean", generate_dmr), ("LibSrc.lean", generate_lib), ("SliceSrc.lean", generate), ("DapSrc.lean", generate_dap), ("DodsSrc.lean", generate_dods),
               ("AppSrc.lean", generate_app), ("CeSrc.lean", generate_ce)]
 
 
